@@ -54,6 +54,29 @@ def csize(fn):
     return 10 ** 9
 
 
+@C.spec([('d', 'Obj')], 'Obj', opaque=True)
+def norm(d):
+    """the document normalize_doc returns for d (normalisation is a deterministic function of the document value;
+    everything the proofs use about it is a proved or listed postcondition of normalize_doc)"""
+    return normalize_doc(d)
+
+
+@C.spec([('d', 'Obj')], 'Obj')
+def acc_flat(d):
+    """what the property FlatChoice.when_flat returns (normalised lazily, under the guard the code uses)"""
+    if d._broken_normalized and not d._flat_normalized:
+        return norm(d._when_flat)
+    return d._when_flat
+
+
+@C.spec([('d', 'Obj')], 'Obj')
+def acc_broken(d):
+    """what the property FlatChoice.when_broken returns"""
+    if d.normalize_on_access and not d._broken_normalized:
+        return norm(d._when_broken)
+    return d._when_broken
+
+
 @C.spec([('stack', 'Stack'), ('i', 'Int'), ('m', 'Mode'), ('ds', 'ObjList')], 'Stack')
 def push_rev(stack, i, m, ds):
     """stack.extend((i, m, d) for d in reversed(ds))"""
@@ -181,12 +204,12 @@ def walk(mw, smart, mnl, i, m, d, w):
         return WR(FITS, 0)
     if isinstance(d, FlatChoice):
         if m is FLAT_MODE:
-            return walk(mw, smart, mnl, i, m, d._when_flat, w)
-        return walk(mw, smart, mnl, i, m, d._when_broken, w)
+            return walk(mw, smart, mnl, i, m, acc_flat(d), w)
+        return walk(mw, smart, mnl, i, m, acc_broken(d), w)
     if isinstance(d, Group):
         return walk(mw, smart, mnl, i, FLAT_MODE, d.doc, w)
     if isinstance(d, Contextual):
-        return walk(mw, smart, mnl, i, m, apply_ctx(d.fn, i, mw - w, PW, RW), w)
+        return walk(mw, smart, mnl, i, m, norm(apply_ctx(d.fn, i, mw - w, PW, RW)), w)
     return WR(GO, w)
 
 
@@ -224,6 +247,13 @@ def fits(mw, smart, mnl, stack):
          triggers=['apply_ctx(fn, a, b, c, d)'], trusted=True,
          note='user contextual functions are pure, return documents, and their results are bounded by a ghost weight')
 def lemma_apply_ctx(fn, a, b, c, d):
+    pass
+
+
+@C.lemma([('d', 'Obj')], requires=['wf(d)'], ensures=['wf(norm(d))', 'size(norm(d)) <= size(d)'],
+         triggers=['norm(d)'], trusted=True,
+         note='postconditions of normalize_doc (normalisation family, not yet proved): a document stays a document and does not grow')
+def lemma_norm_wf_size(d):
     pass
 
 
@@ -289,31 +319,31 @@ def lemma_fits_push_rev(mw, smart, mnl, w, stack, i, m, ds):
 # ------------------------------------------------------------------------------------------------
 # function contracts
 
-_WALK_ALL = 'walk(mw_, smart_, mnl_, i_, m_, result, w_) == walk(mw_, smart_, mnl_, i_, m_, %s, w_)'
-_Q_WALK = dict(mw_='Int', smart_='Bool', mnl_='Int', i_='Int', m_='Mode', w_='Int')
-
 C.contract(DOCTYPES, 'normalize_doc',
            params={'doc': 'Obj'}, returns='Obj',
            requires=['wf(doc)'],
-           ensures=[('wf', 'wf(result)'), ('size', 'size(result) <= size(doc)'),
-                    ('walk', _WALK_ALL % 'doc')],
-           forall=dict(_Q_WALK), trusted=True,
-           note='assumed here; proved in the normalisation family (contracts/normalize.py) where in reach',
+           ensures=[('fn', 'result == norm(doc)')],
+           trusted=True,
+           note='norm is by definition the function normalize_doc computes (determinism of a structural function over the '
+                'document value is assumed); its properties are the lemma group lemma_norm_* (trusted until the '
+                'normalisation family is proved)',
            serves=['C04', 'C05', 'C06', 'C12'])
 
 C.contract(DOCTYPES, 'FlatChoice.when_flat',
            params={'self': 'Obj'}, returns='Obj',
            requires=['isinstance(self, FlatChoice)', 'wf(self)'],
-           ensures=[('wf', 'wf(result)'), ('size', 'size(result) <= size(self._when_flat)'),
-                    ('walk', _WALK_ALL % 'self._when_flat')],
-           forall=dict(_Q_WALK), trusted=True, note='see normalize_doc', serves=['C04', 'C05', 'C06', 'C12'])
+           ensures=[('fn', 'result == acc_flat(self)')],
+           trusted=True,
+           note='reads the cache fields and normalises under the guard written in acc_flat; the mutation of the cache fields of '
+                'self is not modelled (value semantics): it replaces a branch by its normalisation, which every semantic function '
+                'used here is invariant under where the proofs need it (lemma_norm_*)',
+           serves=['C04', 'C05', 'C06', 'C12'])
 
 C.contract(DOCTYPES, 'FlatChoice.when_broken',
            params={'self': 'Obj'}, returns='Obj',
            requires=['isinstance(self, FlatChoice)', 'wf(self)'],
-           ensures=[('wf', 'wf(result)'), ('size', 'size(result) <= size(self._when_broken)'),
-                    ('walk', _WALK_ALL % 'self._when_broken')],
-           forall=dict(_Q_WALK), trusted=True, note='see normalize_doc', serves=['C04', 'C05', 'C06', 'C12'])
+           ensures=[('fn', 'result == acc_broken(self)')],
+           trusted=True, note='see FlatChoice.when_flat', serves=['C04', 'C05', 'C06', 'C12'])
 
 U.attr_hooks = {
     ('Obj', 'when_flat'): lambda I, base: I.call_contract(C.fns[DOCTYPES + ':FlatChoice.when_flat'], [base], {}, None),
